@@ -288,6 +288,16 @@ def judge(events, npart):
                 and "/tmp" not in str(detail):
             # a failing installer gives the lock directory up
             installing.discard(pid)
+            others = (set(running) | installing) - {pid}
+            if others:
+                # the membership of running participants is gone: the next
+                # process to start takes the directory, installs a second
+                # dispatcher and unpins the live table (checked as a
+                # consequence of the statement, not waiting for that third
+                # process to show up in the schedule)
+                return "lockdir-destroyed-while-others-active", (
+                    f"participant {pid} removed the membership directory "
+                    f"while {sorted(others)} was running or installing")
         elif op == "attach":
             attached = True
         elif op == "pin":
